@@ -95,8 +95,7 @@ func runC15(c *Ctx) {
 			name, base, isF := core.IsLoadOfField(call.Call.Value)
 			c.check(isF && name == "r" && base == lr, "C15.reader.guard", rd, "the delegate is lr.r", call, "reads come from the wrapped reader")
 			// O2 window
-			sl, isSl := call.Call.Args[0].(*ssa.Slice)
-			c.check(isSl && sl.X == ssa.Value(p) && sl.Low == nil, "C15.reader.window", rd, "argument is a prefix window p[:l] of the caller's buffer", call, "delivered bytes land at the start of p, in stream order")
+			c.check(isPrefixWindowOf(call.Call.Args[0], p), "C15.reader.window", rd, "argument is a prefix window p[:l] of the caller's buffer", call, "delivered bytes land at the start of p, in stream order")
 			// O4 passthrough and O8 decrement dominates
 			var dec *ssa.Store
 			core.EachInstr(rd, func(in ssa.Instruction) {
@@ -229,8 +228,7 @@ func runC15(c *Ctx) {
 		if call == nil || limIdx < 0 || offIdx < 0 {
 			c.undecided("C15.writer.window", wr, "delegated w.Write call", nil, "not found")
 		} else {
-			sl, isSl := call.Call.Args[0].(*ssa.Slice)
-			c.check(isSl && sl.X == ssa.Value(b) && sl.Low == nil, "C15.writer.window", wr, "forwarded bytes are a prefix window b[:idx]", call, "the first bytes of each write are forwarded, in order")
+			c.check(isPrefixWindowOf(call.Call.Args[0], b), "C15.writer.window", wr, "forwarded bytes are a prefix window b[:idx]", call, "the first bytes of each write are forwarded, in order")
 			name, base, isF := core.IsLoadOfField(call.Call.Value)
 			c.check(isF && name == "w" && base == w, "C15.writer.window", wr, "the delegate is w.w", call, "bytes go to the wrapped writer")
 			var upd *ssa.Store
@@ -355,4 +353,38 @@ func runC15(c *Ctx) {
 			})
 		}
 	}
+}
+
+// isPrefixWindowOf: on every path v is base itself or base[:k] (possibly
+// re-sliced from the front again): the bytes start at base[0].
+func isPrefixWindowOf(v ssa.Value, base ssa.Value) bool {
+	seen := map[ssa.Value]bool{}
+	var walk func(v ssa.Value) bool
+	walk = func(v ssa.Value) bool {
+		if v == base {
+			return true
+		}
+		if seen[v] {
+			return true
+		}
+		seen[v] = true
+		switch x := v.(type) {
+		case *ssa.Phi:
+			for _, e := range x.Edges {
+				if !walk(e) {
+					return false
+				}
+			}
+			return true
+		case *ssa.Slice:
+			if x.Low != nil {
+				if k, ok := core.ConstInt(x.Low); !ok || k != 0 {
+					return false
+				}
+			}
+			return walk(x.X)
+		}
+		return false
+	}
+	return walk(v)
 }
